@@ -369,3 +369,1054 @@ Qed.
 Lemma ktable_set_unsafe_eq cfg gsize ot k v ext fc fe L :
   ktable_set_unsafe cfg gsize ot k v ext fc fe L = ktable_set cfg gsize ot k v ext fc fe L.
 Proof. reflexivity. Qed.
+
+(* ------------------------------------------------------------------ shape invariant of a table *)
+Definition chain_keys (t : ktable) (i : nat) : list Z := map e_key (nth_chain t i).
+Record tgood (t : ktable) : Prop := {
+  g_wf    : twf t;
+  g_slot  : forall i id, In id (chain_keys t i) -> get_idx id (t_size t) = i;
+  g_nodup : forall i, NoDup (chain_keys t i)
+}.
+
+Lemma tgood_with_alloc t t1 : t_size t1 = t_size t -> t_elems t1 = t_elems t -> tgood t -> tgood t1.
+Proof.
+  intros Hs He [W HS N]. assert (Hc : forall i, chain_keys t1 i = chain_keys t i).
+  { intros; unfold chain_keys, nth_chain; congruence. }
+  split.
+  - destruct W; split; congruence.
+  - intros i id. rewrite Hc, Hs. apply HS.
+  - intros i. rewrite Hc. apply N.
+Qed.
+
+Lemma chain_keys_with t i c j :
+  (i < length (t_elems t))%nat ->
+  chain_keys (with_chain t i c) j = if Nat.eqb j i then map e_key c else chain_keys t j.
+Proof.
+  intros Hi. unfold chain_keys. destruct (Nat.eqb_spec j i) as [->|Hne].
+  - rewrite nth_chain_with_eq; auto.
+  - rewrite nth_chain_with_ne; auto.
+Qed.
+
+Lemma set_impl_good cfg t k v ext fail L L' t' rc :
+  tgood t -> ktable_set_impl cfg t k v ext fail L = (L', t', rc) -> tgood t'.
+Proof.
+  intros G H. pose proof (g_wf _ G) as W. unfold ktable_set_impl in H.
+  set (idx := get_idx (k_id k) (t_size t)) in *.
+  assert (Hidx : (idx < length (t_elems t))%nat).
+  { rewrite (wf_len _ W). apply get_idx_range. apply (wf_pow2 _ W). }
+  set (c := nth_chain t idx) in *.
+  assert (STORE : forall j, tgood (with_chain t idx (chain_store c j v))).
+  { intros j. split.
+    - apply twf_with_chain; auto.
+    - intros i id. rewrite chain_keys_with by auto. cbn [with_chain t_size].
+      destruct (Nat.eqb_spec i idx) as [->|]; [|apply (g_slot _ G)].
+      rewrite chain_store_keys. apply (g_slot _ G idx).
+    - intros i. rewrite chain_keys_with by auto.
+      destruct (Nat.eqb_spec i idx) as [->|]; [|apply (g_nodup _ G)].
+      rewrite chain_store_keys. apply (g_nodup _ G idx). }
+  destruct (chain_walk c (k_id k) 0) as [i|n] eqn:E1.
+  - inversion H; subst; apply STORE.
+  - destruct (walk_tail _ _ _ _ E1) as [-> Hnone]. cbn [Nat.add] in H.
+    rewrite skipn_all in H. cbn [chain_walk] in H.
+    destruct (ktable_alloc_elem cfg t (ktelem_bytes cfg) ext fail L) as [[L1 t1] [p|]] eqn:EA.
+    + inversion H; subst L' t' rc; clear H.
+      destruct (alloc_elem_same _ _ _ _ _ _ _ _ _ EA) as (Hs & He & _).
+      pose proof (tgood_with_alloc t t1 Hs He G) as G1.
+      assert (Hidx1 : (idx < length (t_elems t1))%nat) by congruence.
+      assert (Hc : forall i, chain_keys t1 i = chain_keys t i).
+      { intros; unfold chain_keys, nth_chain; congruence. }
+      rewrite firstn_all. split.
+      * apply twf_with_chain. apply (g_wf _ G1).
+      * intros i id. rewrite chain_keys_with by auto. cbn [with_chain t_size]. rewrite Hs.
+        destruct (Nat.eqb_spec i idx) as [->|]; [|rewrite Hc; apply (g_slot _ G)].
+        rewrite map_app, in_app_iff. cbn. intros [Hin|[<-|[]]]; [|reflexivity].
+        apply (g_slot _ G idx). exact Hin.
+      * intros i. rewrite chain_keys_with by auto.
+        destruct (Nat.eqb_spec i idx) as [->|]; [|rewrite Hc; apply (g_nodup _ G)].
+        rewrite map_app. cbn. apply NoDup_snoc; [apply (g_nodup _ G idx)|].
+        apply chain_find_none. exact Hnone.
+    + inversion H; subst L' t' rc; clear H.
+      destruct (alloc_elem_same _ _ _ _ _ _ _ _ _ EA) as (Hs & He & Hsame).
+      destruct (Hsame eq_refl) as [-> _]. exact G.
+Qed.
+
+Lemma create_good cfg gsize ext fail L L' t :
+  pow2 gsize -> ktable_create cfg gsize ext fail L = (L', Some t) -> tgood t.
+Proof.
+  intros P H. pose proof (create_spec _ _ _ _ _ _ _ P H) as (W & Hs & _ & _).
+  assert (E : forall i, nth_chain t i = []).
+  { unfold ktable_create in H.
+    assert (E : forall i, nth i (repeat (@nil ktelem) (Z.to_nat gsize)) [] = []).
+    { intros i. destruct (Nat.lt_ge_cases i (Z.to_nat gsize)).
+      - apply nth_repeat.
+      - apply nth_overflow. rewrite repeat_length. lia. }
+    destruct (_ <=? c_desc cfg); destruct fail; unfold l_alloc in H; cbn in H; inversion H; subst;
+      intros i; unfold nth_chain; cbn; apply E. }
+  split; auto.
+  - intros i id. unfold chain_keys. rewrite E. intros [].
+  - intros i. unfold chain_keys. rewrite E. constructor.
+Qed.
+
+Definition ogood (gsize : Z) (ot : option ktable) : Prop :=
+  match ot with Some t => tgood t /\ t_size t = gsize | None => True end.
+
+Lemma ogood_owf g ot : ogood g ot -> owf g ot.
+Proof. destruct ot; cbn; auto. intros [G E]. split; auto. apply (g_wf _ G). Qed.
+
+Lemma ktable_set_good cfg gsize ot k v ext fc fe L L' ot' rc :
+  pow2 gsize -> ogood gsize ot ->
+  ktable_set cfg gsize ot k v ext fc fe L = (L', ot', rc) -> ogood gsize ot'.
+Proof.
+  intros P G H. unfold ktable_set in H. destruct ot as [t|].
+  - destruct G as [G Hs].
+    destruct (ktable_set_impl cfg t k v ext fe L) as [[L1 t1] rc1] eqn:E.
+    inversion H; subst; clear H. cbn. split; [eapply set_impl_good; eauto|].
+    destruct (set_impl_spec _ _ _ _ _ _ _ _ _ _ (g_wf _ G) E) as (_ & Hs1 & _). congruence.
+  - destruct (ktable_create cfg gsize ext fc L) as [L1 [t|]] eqn:EC.
+    + pose proof (create_good _ _ _ _ _ _ _ P EC) as G1.
+      pose proof (create_spec _ _ _ _ _ _ _ P EC) as (_ & Hs & _).
+      destruct (ktable_set_impl cfg t k v ext fe L1) as [[L2 t2] rc2] eqn:E.
+      inversion H; subst; clear H. cbn. split; [eapply set_impl_good; eauto|].
+      destruct (set_impl_spec _ _ _ _ _ _ _ _ _ _ (g_wf _ G1) E) as (_ & Hs1 & _). congruence.
+    + inversion H; subst. exact I.
+Qed.
+
+(* ------------------------------------------------------------------ destructors: exactly once *)
+Definition dtor_of (x : option (Z * Z)) : list (Z * Z) :=
+  match x with
+  | Some (d, v) => if negb (d =? 0) && negb (v =? 0) then [(d, v)] else []
+  | None => []
+  end.
+
+Lemma in_nth_concat {A} (l : list (list A)) i x : In x (nth i l []) -> In x (concat l).
+Proof.
+  revert i; induction l as [|c l IH]; intros [|i] H; cbn in *; try tauto;
+    apply in_or_app; [left; auto|right; eauto].
+Qed.
+
+Lemma in_concat_nth {A} (l : list (list A)) x :
+  In x (concat l) -> exists i, (i < length l)%nat /\ In x (nth i l []).
+Proof.
+  induction l as [|c l IH]; cbn; [tauto|]. intros H. apply in_app_or in H. destruct H as [H|H].
+  - exists O. split; [lia|auto].
+  - destruct (IH H) as (i & Hi & Hx). exists (S i). split; [lia|auto].
+Qed.
+
+(* a chain with distinct keys: looking an element's key up finds that element *)
+Lemma chain_find_self c e : NoDup (map e_key c) -> In e c -> chain_find c (e_key e) = Some e.
+Proof.
+  induction c as [|a c IH]; cbn; [tauto|]. intros N [->|Hin].
+  - rewrite Z.eqb_refl. reflexivity.
+  - inversion N; subst. destruct (Z.eqb_spec (e_key a) (e_key e)) as [E|E].
+    + exfalso. apply H1. rewrite E. apply in_map. exact Hin.
+    + apply IH; auto.
+Qed.
+
+Lemma NoDup_concat_slots (l : list (list ktelem)) (slot : Z -> nat) (off : nat) :
+  (forall i, NoDup (map e_key (nth i l []))) ->
+  (forall i id, In id (map e_key (nth i l [])) -> slot id = (off + i)%nat) ->
+  NoDup (map e_key (concat l)).
+Proof.
+  revert off; induction l as [|c l IH]; intros off N HS; cbn; [constructor|].
+  rewrite map_app. apply NoDup_app_iff. split; [apply (N O)|]. split.
+  - apply (IH (S off)).
+    + intros i. apply (N (S i)).
+    + intros i id H. rewrite (HS (S i) id H). lia.
+  - intros id H1 H2. pose proof (HS O id H1) as E1.
+    apply in_map_iff in H2. destruct H2 as (e & <- & He).
+    destruct (in_concat_nth _ _ He) as (i & _ & Hi).
+    pose proof (HS (S i) (e_key e) (in_map e_key _ _ Hi)) as E2. lia.
+Qed.
+
+Definition telems (t : ktable) : list ktelem := concat (t_elems t).
+
+Lemma tgood_nodup t : tgood t -> NoDup (map e_key (telems t)).
+Proof.
+  intros G. apply (NoDup_concat_slots (t_elems t) (fun id => get_idx id (t_size t)) O).
+  - intros i. apply (g_nodup _ G i).
+  - intros i id H. cbn. apply (g_slot _ G i id H).
+Qed.
+
+Lemma tfind_elem t e : tgood t -> In e (telems t) -> tfind (Some t) (e_key e) = Some (e_dtor e, e_val e).
+Proof.
+  intros G H. destruct (in_concat_nth _ _ H) as (i & Hi & Hx).
+  assert (E : get_idx (e_key e) (t_size t) = i).
+  { apply (g_slot _ G). unfold chain_keys, nth_chain. apply in_map. exact Hx. }
+  unfold tfind. rewrite E.
+  rewrite (chain_find_self (nth_chain t i) e (g_nodup _ G i) Hx). reflexivity.
+Qed.
+
+Lemma tfind_some_elem t id x : tfind (Some t) id = Some x -> In id (map e_key (telems t)).
+Proof.
+  cbn. destruct (chain_find _ id) as [e|] eqn:E; [|discriminate]. intros _.
+  apply chain_find_some in E. destruct E as [Hin <-]. apply in_map.
+  eapply in_nth_concat. exact Hin.
+Qed.
+
+Lemma dtor_calls_spec t : tgood t ->
+  let ids := map e_key (telems t) in
+  NoDup ids /\ (forall id, In id ids <-> tfind (Some t) id <> None) /\
+  table_dtor_calls t = flat_map (fun id => dtor_of (tfind (Some t) id)) ids.
+Proof.
+  intros G ids. split; [apply tgood_nodup; auto|]. split.
+  - intros id. split.
+    + intros H. apply in_map_iff in H. destruct H as (e & <- & He).
+      rewrite (tfind_elem t e G He). discriminate.
+    + intros H. destruct (tfind (Some t) id) eqn:E; [|congruence]. eapply tfind_some_elem; eauto.
+  - unfold table_dtor_calls, ids.
+    assert (forall l : list ktelem, (forall e, In e l -> In e (telems t)) ->
+              flat_map elem_dtor_call l = flat_map (fun id => dtor_of (tfind (Some t) id)) (map e_key l)) as Hl.
+    { induction l as [|e l IH]; intros Hsub; cbn [flat_map map]; auto.
+      rewrite IH by (intros; apply Hsub; right; auto). f_equal.
+      rewrite (tfind_elem t e G (Hsub e (or_introl eq_refl))). reflexivity. }
+    transitivity (flat_map elem_dtor_call (telems t)).
+    { unfold telems. clear. induction (t_elems t) as [|c l IH]; cbn; auto.
+      rewrite flat_map_app, IH. reflexivity. }
+    apply Hl. auto.
+Qed.
+
+(* ------------------------------------------------------------------ units as an association list *)
+Lemma find_set us u t u' :
+  find_unit (set_unit us u t) u' =
+  if u' =? u then match find_unit us u with Some _ => Some t | None => None end else find_unit us u'.
+Proof.
+  induction us as [|[a x] us IH]; cbn.
+  - destruct (u' =? u); auto.
+  - destruct (Z.eqb_spec a u) as [Ea|Ha]; cbn.
+    + subst a. destruct (Z.eqb_spec u' u) as [Eu|Eu].
+      * subst u'. rewrite Z.eqb_refl; auto.
+      * destruct (Z.eqb_spec u u'); [congruence|auto].
+    + destruct (Z.eqb_spec a u') as [Ea|Ea].
+      * subst a. destruct (Z.eqb_spec u' u); [congruence|auto].
+      * apply IH.
+Qed.
+
+Lemma find_none_notin us u : find_unit us u = None <-> ~ In u (map fst us).
+Proof.
+  induction us as [|[a x] us IH]; cbn; [tauto|].
+  destruct (Z.eqb_spec a u); [intuition congruence|]. rewrite IH. intuition.
+Qed.
+
+Lemma find_del us u u' : NoDup (map fst us) ->
+  find_unit (del_unit us u) u' = if u' =? u then None else find_unit us u'.
+Proof.
+  induction us as [|[a x] us IH]; cbn; intros N.
+  - destruct (u' =? u); auto.
+  - inversion N; subst. destruct (Z.eqb_spec a u) as [Ea|Ha]; cbn.
+    + subst a. destruct (Z.eqb_spec u' u) as [Eu|Eu].
+      * subst u'. apply find_none_notin; auto.
+      * destruct (Z.eqb_spec u u'); [congruence|auto].
+    + destruct (Z.eqb_spec a u') as [Ea|Ea].
+      * subst a. destruct (Z.eqb_spec u' u); [congruence|auto].
+      * apply IH; auto.
+Qed.
+
+Lemma find_app us u t u' :
+  find_unit (us ++ [(u, t)]) u' =
+  match find_unit us u' with Some x => Some x | None => if u =? u' then Some t else None end.
+Proof.
+  induction us as [|[a x] us IH]; cbn; auto. destruct (a =? u'); auto.
+Qed.
+
+Lemma fst_set us u t : map fst (set_unit us u t) = map fst us.
+Proof.
+  induction us as [|[a x] us IH]; cbn; auto. destruct (a =? u); cbn; congruence.
+Qed.
+
+Lemma in_fst_del us u a : In a (map fst (del_unit us u)) -> In a (map fst us).
+Proof.
+  induction us as [|[b x] us IH]; cbn; auto. destruct (b =? u); cbn; intuition.
+Qed.
+
+Lemma nodup_del us u : NoDup (map fst us) -> NoDup (map fst (del_unit us u)).
+Proof.
+  induction us as [|[b x] us IH]; cbn; intros N; auto. inversion N; subst.
+  destruct (b =? u); cbn; auto. constructor; auto. intros H. apply H1. eapply in_fst_del; eauto.
+Qed.
+
+(* ------------------------------------------------------------------ the specification: one map per unit *)
+Definition umap := Z -> option (Z * Z).          (* key id -> (destructor, value) *)
+Record sworld := mkS {
+  s_keyctr : Z;
+  s_keys : list (key * bool);
+  s_map : Z -> option umap                      (* live unit -> its map *)
+}.
+Definition fupd {A} (f : Z -> A) (x : Z) (a : A) : Z -> A := fun y => if y =? x then a else f y.
+Definition empty_unit : umap := fun _ => None.
+(* set: the destructor recorded for an id is the one of the key that first set it *)
+Definition uset (f : umap) (k : key) (v : Z) : umap :=
+  fupd f (k_id k) (Some (match f (k_id k) with Some (d, _) => d | None => k_dtor k end, v)).
+Definition uget (f : umap) (k : key) : Z := match f (k_id k) with Some (_, v) => v | None => 0 end.
+Definition sworld0 : sworld := mkS KEY_ID_END [] (fun _ => None).
+
+Definition sstep (s : sworld) (o : op) : sworld * res :=
+  match o with
+  | OKeyCreate d =>
+      (mkS ((s_keyctr s + 1) mod W2) (s_keys s ++ [(mkK d (s_keyctr s), true)]) (s_map s), RKey (s_keyctr s))
+  | OKeyFree h =>
+      match nth_error (s_keys s) h with
+      | Some (k, true) => (mkS (s_keyctr s) (upd_nth (s_keys s) h (k, false)) (s_map s), RRc 0)
+      | Some (k, false) => (s, RRc ERR_INV_KEY)
+      | None => (s, RInvalid)
+      end
+  | OKeyJump n => (mkS (n mod W2) (s_keys s) (s_map s), RRc 0)
+  | OUnitCreate u ext mig =>
+      match s_map s u with
+      | Some _ => (s, RInvalid)
+      | None => (mkS (s_keyctr s) (s_keys s)
+                     (fupd (s_map s) u (Some (if mig then uset empty_unit mig_key MIGVAL else empty_unit))),
+                 RRc 0)
+      end
+  | OSet ext u h v _ _ =>
+      match nth_error (s_keys s) h, s_map s u with
+      | Some (k, true), Some f => (mkS (s_keyctr s) (s_keys s) (fupd (s_map s) u (Some (uset f k v))), RRc 0)
+      | Some (k, false), Some _ => (s, RRc ERR_INV_KEY)
+      | _, _ => (s, RInvalid)
+      end
+  | OGet u h =>
+      match nth_error (s_keys s) h, s_map s u with
+      | Some (k, true), Some f => (s, RVal (uget f k))
+      | Some (k, false), Some _ => (s, RRc ERR_INV_KEY)
+      | _, _ => (s, RInvalid)
+      end
+  | OSelfExt h =>
+      match nth_error (s_keys s) h with
+      | Some (k, true) => (s, RRc ERR_INV_XSTREAM)
+      | Some (k, false) => (s, RRc ERR_INV_KEY)
+      | None => (s, RInvalid)
+      end
+  | OMigData ext u =>
+      match s_map s u with
+      | Some f => if uget f mig_key =? 0
+                  then (mkS (s_keyctr s) (s_keys s) (fupd (s_map s) u (Some (uset f mig_key MIGVAL))), RRc 0)
+                  else (s, RRc 0)
+      | None => (s, RInvalid)
+      end
+  | ORevive u => match s_map s u with Some _ => (s, RRc 0) | None => (s, RInvalid) end
+  | OFree u =>
+      match s_map s u with
+      | Some _ => (mkS (s_keyctr s) (s_keys s) (fupd (s_map s) u None), RFreed [])
+      | None => (s, RInvalid)
+      end
+  end.
+
+Fixpoint srun (s : sworld) (ops : list op) : sworld * list res :=
+  match ops with
+  | [] => (s, [])
+  | o :: ops' => let (s', r) := sstep s o in
+                 let (s'', rs) := srun s' ops' in (s'', r :: rs)
+  end.
+
+(* the order of destructor calls is not part of the specification *)
+Definition erase (r : res) : res := match r with RFreed _ => RFreed [] | _ => r end.
+
+Definition nofail (o : op) : Prop :=
+  match o with OSet _ _ _ _ fc fe => fc = false /\ fe = false | _ => True end.
+
+(* ------------------------------------------------------------------ invariant and refinement relation *)
+Record WInv (w : world) : Prop := {
+  wi_pow2  : pow2 (w_gsize w);
+  wi_nodup : NoDup (map fst (w_units w));
+  wi_good  : forall u ot, find_unit (w_units w) u = Some ot -> ogood (w_gsize w) ot
+}.
+
+Definition urel (x : option (option ktable)) (y : option umap) : Prop :=
+  match x, y with
+  | Some ot, Some f => forall id, tfind ot id = f id
+  | None, None => True
+  | _, _ => False
+  end.
+Record Rel (w : world) (s : sworld) : Prop := {
+  r_ctr  : w_keyctr w = s_keyctr s;
+  r_keys : w_keys w = s_keys s;
+  r_map  : forall u, urel (find_unit (w_units w) u) (s_map s u)
+}.
+
+Lemma winv0 env : WInv (world0 env).
+Proof. split; cbn; [apply env_size_pow2|constructor|discriminate]. Qed.
+Lemma rel0 env : Rel (world0 env) sworld0.
+Proof. split; cbn; auto. Qed.
+
+Lemma winv_keys w c ks : WInv w -> WInv (mkW (w_gsize w) c ks (w_units w) (w_led w) (w_dlog w)).
+Proof. intros [A B C]. split; auto. Qed.
+
+Lemma winv_set w u ot ot' L c ks dl :
+  WInv w -> find_unit (w_units w) u = Some ot -> ogood (w_gsize w) ot' ->
+  WInv (mkW (w_gsize w) c ks (set_unit (w_units w) u ot') L dl).
+Proof.
+  intros [A B C] Hf G. split; cbn; auto.
+  - rewrite fst_set. auto.
+  - intros u' x. rewrite find_set, Hf. destruct (u' =? u); [intros E; inversion E; subst; auto|apply C].
+Qed.
+
+Lemma winv_add w u ot L c ks dl :
+  WInv w -> find_unit (w_units w) u = None -> ogood (w_gsize w) ot ->
+  WInv (mkW (w_gsize w) c ks (w_units w ++ [(u, ot)]) L dl).
+Proof.
+  intros [A B C] Hf G. split; cbn; auto.
+  - rewrite map_app. cbn. apply NoDup_snoc; auto. apply find_none_notin; auto.
+  - intros u' x. rewrite find_app. destruct (find_unit (w_units w) u') eqn:E.
+    + intros E'; inversion E'; subst. eapply C; eauto.
+    + destruct (u =? u'); [intros E'; inversion E'; subst; auto|discriminate].
+Qed.
+
+Lemma winv_del w u L c ks dl :
+  WInv w -> WInv (mkW (w_gsize w) c ks (del_unit (w_units w) u) L dl).
+Proof.
+  intros [A B C]. split; cbn; auto.
+  - apply nodup_del; auto.
+  - intros u' x. rewrite find_del by auto. destruct (u' =? u); [discriminate|apply C].
+Qed.
+
+(* every step keeps the invariant (any op, any failure flags) *)
+Lemma wstep_inv cfg w o : WInv w -> WInv (fst (wstep cfg w o)).
+Proof.
+  intros I. pose proof (wi_pow2 _ I) as P.
+  destruct o as [d|h|n|u ext mig|ext u h v fc fe|u h|h|ext u|u|u]; cbn [wstep].
+  - cbn [fst]. apply winv_keys; auto.
+  - destruct (nth_error (w_keys w) h) as [[k [|]]|]; cbn [fst]; auto. apply winv_keys; auto.
+  - cbn [fst]. apply winv_keys; auto.
+  - destruct (find_unit (w_units w) u) eqn:E; cbn [fst]; auto.
+    destruct mig.
+    + rewrite ktable_set_unsafe_eq.
+      destruct (ktable_set cfg (w_gsize w) None mig_key MIGVAL ext false false (w_led w)) as [[L' ot'] rc] eqn:ES.
+      cbn [fst]. apply winv_add; auto. eapply ktable_set_good; eauto. exact Logic.I.
+    + cbn [fst]. apply winv_add; auto. exact Logic.I.
+  - destruct (nth_error (w_keys w) h) as [[k [|]]|]; destruct (find_unit (w_units w) u) as [ot|] eqn:E; cbn [fst]; auto.
+    destruct (ktable_set cfg (w_gsize w) ot k v ext fc fe (w_led w)) as [[L' ot'] rc] eqn:ES. cbn [fst].
+    eapply winv_set; eauto. eapply ktable_set_good; eauto. eapply wi_good; eauto.
+  - destruct (nth_error (w_keys w) h) as [[k [|]]|]; destruct (find_unit (w_units w) u); cbn [fst]; auto.
+  - destruct (nth_error (w_keys w) h) as [[k [|]]|]; cbn [fst]; auto.
+  - destruct (find_unit (w_units w) u) as [ot|] eqn:E; cbn [fst]; auto.
+    destruct (ktable_get ot mig_key =? 0); cbn [fst]; auto.
+    destruct (ktable_set cfg (w_gsize w) ot mig_key MIGVAL ext false false (w_led w)) as [[L' ot'] rc] eqn:ES. cbn [fst].
+    eapply winv_set; eauto. eapply ktable_set_good; eauto. eapply wi_good; eauto.
+  - destruct (find_unit (w_units w) u); cbn [fst]; auto.
+  - destruct (find_unit (w_units w) u) as [[t|]|] eqn:E; cbn [fst]; auto.
+    + destruct (ktable_free t (w_led w)) as [calls L'] eqn:EF. cbn [fst]. apply winv_del; auto.
+    + apply winv_del; auto.
+Qed.
+
+Lemma wrun_inv cfg ops : forall w, WInv w -> WInv (fst (wrun cfg w ops)).
+Proof.
+  induction ops as [|o ops IH]; intros w I; cbn; auto.
+  pose proof (wstep_inv cfg w o I). destruct (wstep cfg w o) as [w' r]. cbn in H.
+  specialize (IH w' H). destruct (wrun cfg w' ops). cbn in *. auto.
+Qed.
+
+Lemma urel_upd us m u ot ot' (f' : umap) :
+  find_unit us u = Some ot -> (forall id, tfind ot' id = f' id) ->
+  (forall u', urel (find_unit us u') (m u')) ->
+  forall u', urel (find_unit (set_unit us u ot') u') (fupd m u (Some f') u').
+Proof.
+  intros Hf Ht R u'. rewrite find_set, Hf. unfold fupd. destruct (u' =? u); cbn; auto.
+Qed.
+
+(* one step of the model against one step of the specification *)
+Lemma wstep_refines cfg w s o :
+  WInv w -> Rel w s -> nofail o ->
+  Rel (fst (wstep cfg w o)) (fst (sstep s o)) /\ erase (snd (wstep cfg w o)) = snd (sstep s o).
+Proof.
+  intros I [Rc Rk Rm] NF. pose proof (wi_pow2 _ I) as P.
+  destruct o as [d|h|n|u ext mig|ext u h v fc fe|u h|h|ext u|u|u]; cbn [wstep sstep].
+  - rewrite <- Rc, <- Rk. split; [split; cbn; auto|reflexivity].
+  - rewrite <- Rk. destruct (nth_error (w_keys w) h) as [[k [|]]|]; cbn; (split; [split; cbn; auto|reflexivity]).
+  - split; [split; cbn; auto|reflexivity].
+  - pose proof (Rm u) as Ru. destruct (find_unit (w_units w) u) as [x|] eqn:E, (s_map s u) eqn:Es; cbn in Ru; try tauto.
+    { split; [split; cbn; auto|reflexivity]. }
+    assert (ADD : forall ot (f : umap), (forall id, tfind ot id = f id) ->
+              forall u', urel (find_unit (w_units w ++ [(u, ot)]) u') (fupd (s_map s) u (Some f) u')).
+    { intros ot f Hf u'. rewrite find_app. unfold fupd. specialize (Rm u').
+      destruct (Z.eqb_spec u' u) as [->|Hne].
+      - rewrite E, Z.eqb_refl. cbn. auto.
+      - destruct (find_unit (w_units w) u'); auto. destruct (Z.eqb_spec u u'); [congruence|auto]. }
+    destruct mig.
+    + rewrite ktable_set_unsafe_eq.
+      destruct (ktable_set cfg (w_gsize w) None mig_key MIGVAL ext false false (w_led w)) as [[L' ot'] rc] eqn:ES.
+      destruct (ktable_set_spec cfg (w_gsize w) None mig_key MIGVAL ext false false (w_led w) L' ot' rc P Logic.I ES) as (_ & Hrc & Hok & _).
+      assert (rc = 0) as -> by (destruct Hrc as [?|[_ [?|?]]]; auto; discriminate).
+      cbn. split; [|reflexivity]. split; cbn; auto. apply ADD. intros id. rewrite (Hok eq_refl id).
+      unfold uset, fupd, empty_unit. cbn. try reflexivity.
+    + cbn. split; [|reflexivity]. split; cbn; auto.
+  - rewrite <- Rk. pose proof (Rm u) as Ru. destruct NF as [-> ->].
+    destruct (nth_error (w_keys w) h) as [[k [|]]|];
+      destruct (find_unit (w_units w) u) as [ot|] eqn:E, (s_map s u) as [f|] eqn:Es; cbn in Ru; try tauto;
+      try (split; [split; cbn; auto|reflexivity]).
+    destruct (ktable_set cfg (w_gsize w) ot k v ext false false (w_led w)) as [[L' ot'] rc] eqn:ES.
+    destruct (ktable_set_spec _ _ _ _ _ _ _ _ _ _ _ _ P (ogood_owf _ _ (wi_good _ I _ _ E)) ES) as (_ & Hrc & Hok & _).
+    assert (rc = 0) as -> by (destruct Hrc as [?|[_ [?|?]]]; auto; discriminate).
+    cbn. split; [|reflexivity]. split; cbn; auto.
+    eapply urel_upd; eauto. intros id. rewrite (Hok eq_refl id). unfold uset, fupd.
+    rewrite !Ru. reflexivity.
+  - rewrite <- Rk. pose proof (Rm u) as Ru.
+    destruct (nth_error (w_keys w) h) as [[k [|]]|];
+      destruct (find_unit (w_units w) u) as [ot|] eqn:E, (s_map s u) as [f|] eqn:Es; cbn in Ru; try tauto;
+      (split; [split; cbn; auto|]); cbn; auto.
+    rewrite ktable_get_tfind, Ru. reflexivity.
+  - rewrite <- Rk. destruct (nth_error (w_keys w) h) as [[k [|]]|]; cbn; (split; [split; cbn; auto|reflexivity]).
+  - pose proof (Rm u) as Ru.
+    destruct (find_unit (w_units w) u) as [ot|] eqn:E, (s_map s u) as [f|] eqn:Es; cbn in Ru; try tauto;
+      try (split; [split; cbn; auto|reflexivity]).
+    rewrite ktable_get_tfind, Ru. fold (uget f mig_key).
+    destruct (uget f mig_key =? 0); [|split; [split; cbn; auto|reflexivity]].
+    destruct (ktable_set cfg (w_gsize w) ot mig_key MIGVAL ext false false (w_led w)) as [[L' ot'] rc] eqn:ES.
+    destruct (ktable_set_spec _ _ _ _ _ _ _ _ _ _ _ _ P (ogood_owf _ _ (wi_good _ I _ _ E)) ES) as (_ & Hrc & Hok & _).
+    assert (rc = 0) as -> by (destruct Hrc as [?|[_ [?|?]]]; auto; discriminate).
+    cbn. split; [|reflexivity]. split; cbn; auto.
+    eapply urel_upd; eauto. intros id. rewrite (Hok eq_refl id). unfold uset, fupd.
+    rewrite !Ru. reflexivity.
+  - pose proof (Rm u) as Ru.
+    destruct (find_unit (w_units w) u) as [ot|] eqn:E, (s_map s u) as [f|] eqn:Es; cbn in Ru; try tauto;
+      (split; [split; cbn; auto|reflexivity]).
+  - pose proof (Rm u) as Ru.
+    assert (DEL : forall u', urel (find_unit (del_unit (w_units w) u) u') (fupd (s_map s) u None u')).
+    { intros u'. rewrite find_del by apply (wi_nodup _ I). unfold fupd. destruct (u' =? u); cbn; auto. }
+    destruct (find_unit (w_units w) u) as [[t|]|] eqn:E, (s_map s u) as [f|] eqn:Es; cbn in Ru; try tauto;
+      cbn; (split; [split; cbn; auto|reflexivity]).
+Qed.
+
+Lemma wrun_refines cfg ops : forall w s,
+  WInv w -> Rel w s -> Forall nofail ops ->
+  Rel (fst (wrun cfg w ops)) (fst (srun s ops)) /\
+  map erase (snd (wrun cfg w ops)) = snd (srun s ops).
+Proof.
+  induction ops as [|o ops IH]; intros w s I R NF; cbn; auto.
+  inversion NF; subst.
+  destruct (wstep_refines cfg w s o I R H1) as [R' E].
+  pose proof (wstep_inv cfg w o I) as I'.
+  destruct (wstep cfg w o) as [w' r], (sstep s o) as [s' r']. cbn in *.
+  destruct (IH w' s' I' R' H2) as [R'' E'].
+  destruct (wrun cfg w' ops), (srun s' ops). cbn in *. split; auto. congruence.
+Qed.
+
+(* ------------------------------------------------------------------ world-level corollaries *)
+Definition wlook (w : world) (u id : Z) : option (Z * Z) :=
+  match find_unit (w_units w) u with Some ot => tfind ot id | None => None end.
+
+(* at thread_free every stored (destructor, value) with both non-NULL is passed to
+   its destructor exactly once, and nothing else is *)
+Lemma wfree_dtors cfg w u w' calls :
+  WInv w -> wstep cfg w (OFree u) = (w', RFreed calls) ->
+  exists ids, NoDup ids /\ (forall id, In id ids <-> wlook w u id <> None) /\
+              calls = flat_map (fun id => dtor_of (wlook w u id)) ids /\
+              w_dlog w' = w_dlog w ++ calls /\ (forall id, wlook w' u id = None).
+Proof.
+  intros I H. cbn [wstep] in H. unfold wlook.
+  destruct (find_unit (w_units w) u) as [[t|]|] eqn:E.
+  - destruct (ktable_free t (w_led w)) as [c L'] eqn:EF. inversion H; subst; clear H.
+    unfold ktable_free in EF. inversion EF; subst; clear EF.
+    destruct (wi_good _ I _ _ E) as [G _].
+    destruct (dtor_calls_spec t G) as (N & Hin & Hc).
+    exists (map e_key (telems t)). repeat split; auto; try apply Hin.
+    cbn. intros id. rewrite find_del by apply (wi_nodup _ I). rewrite Z.eqb_refl. reflexivity.
+  - inversion H; subst; clear H. exists []. repeat split; auto; try constructor; cbn; try tauto.
+    + rewrite app_nil_r; auto.
+    + intros id. rewrite find_del by apply (wi_nodup _ I). rewrite Z.eqb_refl. reflexivity.
+  - inversion H.
+Qed.
+
+(* a set that reports an error changed nothing that any get can see *)
+Lemma wset_fail_clean cfg w ext u h v fc fe w' rc :
+  WInv w -> wstep cfg w (OSet ext u h v fc fe) = (w', RRc rc) -> rc <> 0 ->
+  forall u' id, wlook w' u' id = wlook w u' id.
+Proof.
+  intros I H Hrc u' id. cbn [wstep] in H.
+  destruct (nth_error (w_keys w) h) as [[k [|]]|]; destruct (find_unit (w_units w) u) as [ot|] eqn:E;
+    try (inversion H; subst; reflexivity).
+  destruct (ktable_set cfg (w_gsize w) ot k v ext fc fe (w_led w)) as [[L' ot'] rc'] eqn:ES.
+  inversion H; subst; clear H.
+  destruct (ktable_set_spec _ _ _ _ _ _ _ _ _ _ _ _ (wi_pow2 _ I) (ogood_owf _ _ (wi_good _ I _ _ E)) ES)
+    as (_ & _ & _ & Hbad).
+  unfold wlook. cbn [w_units]. rewrite find_set, E.
+  destruct (Z.eqb_spec u' u) as [->|]; auto. rewrite E. apply Hbad; auto.
+Qed.
+
+(* key ids: without the white-box jump the h-th key has id 2 + h as long as the
+   32-bit counter has not wrapped, so distinct handles have distinct ids and no
+   user key collides with the internal ids 0 and 1 *)
+Definition nojump (o : op) : Prop := match o with OKeyJump _ => False | _ => True end.
+
+Definition is_key_op (o : op) : bool :=
+  match o with OKeyCreate _ | OKeyFree _ | OKeyJump _ => true | _ => false end.
+
+Lemma wstep_keys_other cfg w o : is_key_op o = false ->
+  w_keys (fst (wstep cfg w o)) = w_keys w /\ w_keyctr (fst (wstep cfg w o)) = w_keyctr w.
+Proof.
+  destruct o; intros Hk; try discriminate; cbn [wstep];
+    repeat match goal with |- context [match ?x with _ => _ end] => destruct x end; cbn; auto.
+Qed.
+
+Lemma nth_error_upd_nth_ne {A} (l : list A) i j x : i <> j -> nth_error (upd_nth l i x) j = nth_error l j.
+Proof. revert i j; induction l as [|a l IH]; intros [|i] [|j] H; cbn; auto; try lia. Qed.
+Lemma nth_error_upd_nth_eq {A} (l : list A) i x y : nth_error l i = Some y -> nth_error (upd_nth l i x) i = Some x.
+Proof. revert i; induction l as [|a l IH]; intros [|i] H; cbn in *; try discriminate; auto. Qed.
+
+Record KInv (w : world) : Prop := {
+  ki_ctr : KEY_ID_END + Z.of_nat (length (w_keys w)) < W2 ->
+           w_keyctr w = KEY_ID_END + Z.of_nat (length (w_keys w));
+  ki_ids : forall h k b, nth_error (w_keys w) h = Some (k, b) ->
+           KEY_ID_END + Z.of_nat h < W2 -> k_id k = KEY_ID_END + Z.of_nat h
+}.
+
+Lemma kinv0 env : KInv (world0 env).
+Proof. split; cbn; auto. intros [|h]; discriminate. Qed.
+
+Lemma wstep_kinv cfg w o : nojump o -> KInv w -> KInv (fst (wstep cfg w o)).
+Proof.
+  intros NJ [Hc Hk]. destruct (is_key_op o) eqn:Eo.
+  - destruct o; try discriminate; cbn [wstep].
+    + cbn [fst]. split; cbn [w_keys w_keyctr]; rewrite ?app_length; cbn [length].
+      * intros Hb. rewrite Hc by lia. unfold KEY_ID_END, W2 in *. rewrite Z.mod_small; lia.
+      * intros h k b Hn Hb. destruct (Nat.lt_ge_cases h (length (w_keys w))) as [Hl|Hl].
+        -- rewrite nth_error_app1 in Hn by auto. eapply Hk; eauto.
+        -- rewrite nth_error_app2 in Hn by auto.
+           destruct (h - length (w_keys w))%nat eqn:Eh; cbn in Hn; [|destruct n; discriminate].
+           inversion Hn; subst. cbn [k_id]. assert (h = length (w_keys w)) by lia. subst h.
+           apply Hc. exact Hb.
+    + destruct (nth_error (w_keys w) h) as [[k [|]]|] eqn:En; cbn [fst]; try (split; auto).
+      * cbn [w_keys w_keyctr]. rewrite upd_nth_length. auto.
+      * cbn [w_keys]. intros h' k' b' Hn Hb. destruct (Nat.eq_dec h h') as [<-|Hne].
+        -- rewrite (nth_error_upd_nth_eq _ _ _ _ En) in Hn. inversion Hn; subst. eapply Hk; eauto.
+        -- rewrite nth_error_upd_nth_ne in Hn by auto. eapply Hk; eauto.
+    + destruct NJ.
+  - destruct (wstep_keys_other cfg w o Eo) as [E1 E2]. split; rewrite ?E1, ?E2; auto.
+Qed.
+
+Lemma wrun_kinv cfg ops : forall w, Forall nojump ops -> KInv w -> KInv (fst (wrun cfg w ops)).
+Proof.
+  induction ops as [|o ops IH]; intros w NJ K; cbn; auto. inversion NJ; subst.
+  pose proof (wstep_kinv cfg w o H1 K). destruct (wstep cfg w o) as [w' r]. cbn in H.
+  specialize (IH w' H2 H). destruct (wrun cfg w' ops). cbn in *. auto.
+Qed.
+
+(* ------------------------------------------------------------------ the block ledger *)
+Definition is_desc (k : bkind) : bool := match k with BDesc _ => true | BMalloc => false end.
+Definition relr_of (mp : bool) : relr := if mp then RDesc else RFree.
+Lemma kind_ok_iff k mp : kind_ok k (relr_of mp) = true <-> is_desc k = mp.
+Proof. destruct k, mp; cbn; intuition congruence. Qed.
+
+Definition oused (ot : option ktable) : list (Z * bool) :=
+  match ot with Some t => t_used t | None => [] end.
+
+Record LedInv (L : ledger) : Prop := {
+  ld_bad    : l_bad L = [];
+  ld_livend : NoDup (map fst (l_live L));
+  ld_allnd  : NoDup (map fst (l_all L));
+  ld_bound  : forall b, In b (map fst (l_all L)) -> b < l_next L;
+  ld_sub    : forall x, In x (l_live L) -> In x (l_all L);
+  ld_relnd  : NoDup (map fst (l_rel L));
+  ld_rel    : forall b r, In (b, r) (l_rel L) ->
+              ~ In b (map fst (l_live L)) /\ exists k, In (b, k) (l_all L) /\ kind_ok k r = true;
+  ld_part   : forall b, In b (map fst (l_all L)) -> In b (map fst (l_live L)) \/ In b (map fst (l_rel L))
+}.
+
+Lemma ledinv0 : LedInv ledger0.
+Proof. split; cbn; auto; try constructor; tauto. Qed.
+
+Lemma in_fst {A B} (l : list (A * B)) a b : In (a, b) l -> In a (map fst l).
+Proof. intros H. apply in_map_iff. exists (a, b). auto. Qed.
+
+Lemma ledinv_alloc L k : LedInv L -> LedInv (fst (l_alloc L k)).
+Proof.
+  intros [B LN AN BD SB RN RL PT]. unfold l_alloc; cbn [fst].
+  assert (Hfresh : ~ In (l_next L) (map fst (l_all L))) by (intros H; apply BD in H; lia).
+  split; cbn [l_bad l_live l_all l_rel l_next]; auto.
+  - rewrite map_app. cbn. apply NoDup_snoc; auto. intros H. apply Hfresh.
+    apply in_map_iff in H. destruct H as ([b k'] & <- & H). apply SB in H. eapply in_fst; eauto.
+  - rewrite map_app. cbn. apply NoDup_snoc; auto.
+  - intros b. rewrite map_app, in_app_iff. cbn. intros [H|[<-|[]]]; [apply BD in H|]; lia.
+  - intros x. rewrite !in_app_iff. intros [H|H]; auto.
+  - intros b r H. destruct (RL b r H) as (Hn & k' & Hk & Hok). split.
+    + rewrite map_app, in_app_iff. cbn. intros [H1|[<-|[]]]; auto. apply Hfresh. eapply in_fst; eauto.
+    + exists k'. split; auto. apply in_or_app; auto.
+  - intros b. rewrite !map_app, !in_app_iff. cbn. intros [H|[<-|[]]]; auto.
+    destruct (PT b H); auto.
+Qed.
+
+Lemma live_find_in l b k : NoDup (map fst l) -> In (b, k) l -> live_find l b = Some k.
+Proof.
+  induction l as [|[b' k'] l IH]; cbn; intros N H; [tauto|]. inversion N; subst.
+  destruct H as [H|H].
+  - inversion H; subst. rewrite Z.eqb_refl. reflexivity.
+  - destruct (Z.eqb_spec b' b) as [->|]; [|auto]. exfalso. apply H2. eapply in_fst; eauto.
+Qed.
+
+Lemma live_remove_in l b x : NoDup (map fst l) ->
+  (In x (live_remove l b) <-> In x l /\ fst x <> b).
+Proof.
+  induction l as [|[b' k'] l IH]; cbn; intros N; [tauto|]. inversion N; subst.
+  destruct (Z.eqb_spec b' b) as [->|Hne].
+  - split.
+    + intros H. split; auto. intros E. apply H1. rewrite <- E. apply in_map. exact H.
+    + intros [[<-|H] Hx]; [cbn in Hx; congruence|auto].
+  - cbn. rewrite IH by auto. split.
+    + intros [<-|[H Hx]]; [cbn; auto|auto].
+    + intros [[<-|H] Hx]; auto.
+Qed.
+
+Lemma live_remove_nodup l b : NoDup (map fst l) -> NoDup (map fst (live_remove l b)).
+Proof.
+  induction l as [|[b' k'] l IH]; cbn; intros N; auto. inversion N; subst.
+  destruct (b' =? b); cbn; auto. constructor; auto.
+  intros H. apply H1. apply in_map_iff in H. destruct H as (x & <- & H).
+  apply in_map. clear - H. induction l as [|[b2 k2] l IH]; cbn in *; [tauto|].
+  destruct (b2 =? b); cbn in *; intuition.
+Qed.
+
+Lemma ledinv_release L b k r :
+  LedInv L -> In (b, k) (l_live L) -> kind_ok k r = true ->
+  let L' := l_release L b r in
+  LedInv L' /\ l_live L' = live_remove (l_live L) b /\ l_all L' = l_all L /\ l_next L' = l_next L /\
+  l_rel L' = l_rel L ++ [(b, r)].
+Proof.
+  intros [B LN AN BD SB RN RL PT] Hin Hok. unfold l_release.
+  rewrite (live_find_in _ _ _ LN Hin), Hok. cbn zeta.
+  split; [|cbn; auto]. split; cbn [l_bad l_live l_all l_rel l_next]; auto.
+  - apply live_remove_nodup; auto.
+  - intros x H. apply SB. apply (live_remove_in _ b x LN) in H. tauto.
+  - rewrite map_app. cbn. apply NoDup_snoc; auto. intros H.
+    apply in_map_iff in H. destruct H as ([b' r'] & E & H). cbn in E; subst b'.
+    destruct (RL b r' H) as [Hn _]. apply Hn. eapply in_fst; eauto.
+  - intros b' r' H. apply in_app_or in H. destruct H as [H|[H|[]]].
+    + destruct (RL b' r' H) as (Hn & k' & Hk & Ho). split; [|eauto].
+      intros H'. apply Hn. apply in_map_iff in H'. destruct H' as (x & <- & Hx).
+      apply (live_remove_in _ b x LN) in Hx. apply in_map. tauto.
+    + inversion H; subst b' r'. split; [|exists k; auto].
+      intros H'. apply in_map_iff in H'. destruct H' as (x & E & Hx).
+      apply (live_remove_in _ b x LN) in Hx. tauto.
+  - intros b' H. rewrite map_app, in_app_iff. cbn.
+    destruct (Z.eq_dec b' b) as [->|Hne]; [auto|].
+    destruct (PT b' H) as [H'|H']; auto. left.
+    apply in_map_iff in H'. destruct H' as (x & <- & Hx). apply in_map.
+    apply (live_remove_in _ b x LN). auto.
+Qed.
+
+(* the link between the units' p_used_mem chains and the ledger *)
+Record Link (us : list (Z * option ktable)) (L : ledger) : Prop := {
+  lk_nd   : forall u ot, find_unit us u = Some ot -> NoDup (map fst (oused ot));
+  lk_own  : forall u ot b mp, find_unit us u = Some ot -> In (b, mp) (oused ot) ->
+            exists k, In (b, k) (l_live L) /\ is_desc k = mp;
+  lk_uniq : forall u1 u2 ot1 ot2 b, find_unit us u1 = Some ot1 -> find_unit us u2 = Some ot2 ->
+            In b (map fst (oused ot1)) -> In b (map fst (oused ot2)) -> u1 = u2;
+  lk_live : forall b, In b (map fst (l_live L)) ->
+            exists u ot, find_unit us u = Some ot /\ In b (map fst (oused ot))
+}.
+
+Lemma link0 : Link [] ledger0.
+Proof. split; cbn; try discriminate; tauto. Qed.
+
+Lemma link_same us L u ot ot' :
+  Link us L -> find_unit us u = Some ot -> oused ot' = oused ot -> Link (set_unit us u ot') L.
+Proof.
+  intros [ND OW UQ LV] Hf E.
+  assert (F : forall u' x, find_unit (set_unit us u ot') u' = Some x ->
+                exists x0, find_unit us u' = Some x0 /\ oused x = oused x0).
+  { intros u' x. rewrite find_set, Hf. destruct (Z.eqb_spec u' u) as [->|].
+    - intros H; inversion H; subst. eauto.
+    - intros H; eauto. }
+  split.
+  - intros u' x H. destruct (F _ _ H) as (x0 & H0 & ->). eauto.
+  - intros u' x b mp H. destruct (F _ _ H) as (x0 & H0 & ->). eauto.
+  - intros u1 u2 x1 x2 b H1 H2. destruct (F _ _ H1) as (y1 & G1 & ->), (F _ _ H2) as (y2 & G2 & ->). eauto.
+  - intros b H. destruct (LV b H) as (u' & x & Hx & Hb).
+    destruct (Z.eq_dec u' u) as [->|Hne].
+    + exists u, ot'. rewrite find_set, Hf, Z.eqb_refl. split; auto. rewrite E. congruence.
+    + exists u', x. rewrite find_set. destruct (Z.eqb_spec u' u); [congruence|auto].
+Qed.
+
+Lemma link_push us L u ot ot' k :
+  LedInv L -> Link us L -> find_unit us u = Some ot ->
+  oused ot' = (l_next L, is_desc k) :: oused ot ->
+  Link (set_unit us u ot') (fst (l_alloc L k)).
+Proof.
+  intros LI [ND OW UQ LV] Hf E.
+  assert (Hfresh : forall u' x, find_unit us u' = Some x -> ~ In (l_next L) (map fst (oused x))).
+  { intros u' x Hx H. apply in_map_iff in H. destruct H as ([b mp] & Eb & H). cbn in Eb; subst b.
+    destruct (OW _ _ _ _ Hx H) as (k' & Hk & _). apply (ld_sub _ LI) in Hk.
+    pose proof (ld_bound _ LI _ (in_fst _ _ _ Hk)). lia. }
+  unfold l_alloc; cbn [fst].
+  split; cbn [l_live].
+  - intros u' x. rewrite find_set, Hf. destruct (Z.eqb_spec u' u) as [->|]; [|apply ND].
+    intros H; inversion H; subst. rewrite E. cbn. constructor; [apply (Hfresh _ _ Hf)|eauto].
+  - intros u' x b mp. rewrite find_set, Hf. destruct (Z.eqb_spec u' u) as [->|].
+    + intros H; inversion H; subst. rewrite E. intros [Hb|Hb].
+      * inversion Hb; subst. exists k. split; auto. apply in_or_app; right; left; auto.
+      * destruct (OW _ _ _ _ Hf Hb) as (k' & Hk & Hd). exists k'. split; auto. apply in_or_app; auto.
+    + intros H Hb. destruct (OW _ _ _ _ H Hb) as (k' & Hk & Hd). exists k'. split; auto. apply in_or_app; auto.
+  - intros u1 u2 x1 x2 b. rewrite !find_set, Hf.
+    destruct (Z.eqb_spec u1 u) as [->|N1], (Z.eqb_spec u2 u) as [->|N2]; auto.
+    + intros H1 H2; inversion H1; subst. rewrite E. cbn. intros [<-|Hb] Hb2.
+      * exfalso. eapply Hfresh; eauto.
+      * eapply UQ; eauto.
+    + intros H1 H2; inversion H2; subst. rewrite E. cbn. intros Hb1 [<-|Hb].
+      * exfalso. eapply Hfresh; eauto.
+      * eapply UQ; eauto.
+    + apply UQ.
+  - intros b. rewrite map_app, in_app_iff. cbn. intros [H|[<-|[]]].
+    + destruct (LV b H) as (u' & x & Hx & Hb). destruct (Z.eq_dec u' u) as [->|Hne].
+      * exists u, ot'. rewrite find_set, Hf, Z.eqb_refl. split; auto. rewrite E. cbn. right. congruence.
+      * exists u', x. rewrite find_set. destruct (Z.eqb_spec u' u); [congruence|auto].
+    + exists u, ot'. rewrite find_set, Hf, Z.eqb_refl. split; auto. rewrite E. cbn. auto.
+Qed.
+
+Lemma link_add us L u ot :
+  Link us L -> find_unit us u = None -> oused ot = [] -> Link (us ++ [(u, ot)]) L.
+Proof.
+  intros [ND OW UQ LV] Hf E.
+  assert (F : forall u' x, find_unit (us ++ [(u, ot)]) u' = Some x ->
+                find_unit us u' = Some x \/ oused x = []).
+  { intros u' x. rewrite find_app. destruct (find_unit us u'); auto.
+    destruct (u =? u'); [intros H; inversion H; subst; auto|discriminate]. }
+  split.
+  - intros u' x H. destruct (F _ _ H) as [H0| ->]; [eauto|constructor].
+  - intros u' x b mp H Hb. destruct (F _ _ H) as [H0|E0]; [eauto|rewrite E0 in Hb; destruct Hb].
+  - intros u1 u2 x1 x2 b H1 H2 B1 B2.
+    destruct (F _ _ H1) as [G1|E1]; [|rewrite E1 in B1; destruct B1].
+    destruct (F _ _ H2) as [G2|E2]; [|rewrite E2 in B2; destruct B2]. eauto.
+  - intros b H. destruct (LV b H) as (u' & x & Hx & Hb). exists u', x. rewrite find_app, Hx. auto.
+Qed.
+
+(* allocations performed by one call: each takes the next block id and pushes it on
+   the caller's p_used_mem *)
+Inductive Steps : ledger -> list (Z * bool) -> ledger -> list (Z * bool) -> Prop :=
+| st_nil L used : Steps L used L used
+| st_cons L used k L' used' :
+    Steps (fst (l_alloc L k)) ((l_next L, is_desc k) :: used) L' used' -> Steps L used L' used'.
+
+Lemma steps_one L used k : Steps L used (fst (l_alloc L k)) ((l_next L, is_desc k) :: used).
+Proof. eapply st_cons. apply st_nil. Qed.
+
+Lemma steps_trans L1 u1 L2 u2 L3 u3 : Steps L1 u1 L2 u2 -> Steps L2 u2 L3 u3 -> Steps L1 u1 L3 u3.
+Proof. induction 1; auto. intros. eapply st_cons; eauto. Qed.
+
+Lemma alloc_elem_steps cfg t size ext fail L L' t' r :
+  ktable_alloc_elem cfg t size ext fail L = (L', t', r) -> Steps L (t_used t) L' (t_used t').
+Proof.
+  unfold ktable_alloc_elem. intros H.
+  destruct (size <=? t_extra_size t); [inversion H; subst; apply st_nil|].
+  destruct (size <=? c_desc cfg); destruct fail; try (inversion H; subst; apply st_nil).
+  - change (let (L'0, b) := l_alloc L (BDesc ext) in
+            (L'0, mkT (t_size t) (t_elems t) ((b, true) :: t_used t) (b, c_hdr cfg + size) (c_desc cfg - size),
+             Some (b, c_hdr cfg))) with
+      (fst (l_alloc L (BDesc ext)),
+       mkT (t_size t) (t_elems t) ((l_next L, true) :: t_used t) (l_next L, c_hdr cfg + size) (c_desc cfg - size),
+       Some (l_next L, c_hdr cfg)) in H.
+    inversion H; subst; cbn [t_used]. apply (steps_one L (t_used t) (BDesc ext)).
+  - change (let (L'0, b) := l_alloc L BMalloc in
+            (L'0, mkT (t_size t) (t_elems t) ((b, false) :: t_used t) (t_extra t) (t_extra_size t),
+             Some (b, c_hdr cfg))) with
+      (fst (l_alloc L BMalloc),
+       mkT (t_size t) (t_elems t) ((l_next L, false) :: t_used t) (t_extra t) (t_extra_size t),
+       Some (l_next L, c_hdr cfg)) in H.
+    inversion H; subst; cbn [t_used]. apply (steps_one L (t_used t) BMalloc).
+Qed.
+
+Lemma set_impl_steps cfg t k v ext fail L L' t' rc :
+  ktable_set_impl cfg t k v ext fail L = (L', t', rc) -> Steps L (t_used t) L' (t_used t').
+Proof.
+  unfold ktable_set_impl. intros H.
+  destruct (chain_walk _ _ 0) as [i|n]; [inversion H; subst; apply st_nil|].
+  destruct (chain_walk (skipn n _) _ n) as [i|n']; [inversion H; subst; apply st_nil|].
+  destruct (ktable_alloc_elem cfg t (ktelem_bytes cfg) ext fail L) as [[L1 t1] [p|]] eqn:EA;
+    inversion H; subst; cbn [with_chain t_used]; eapply alloc_elem_steps; eauto.
+Qed.
+
+Lemma create_steps cfg gsize ext fail L L' ot :
+  ktable_create cfg gsize ext fail L = (L', ot) -> Steps L [] L' (oused ot).
+Proof.
+  unfold ktable_create. intros H.
+  destruct (_ <=? c_desc cfg); destruct fail; try (inversion H; subst; apply st_nil).
+  - unfold l_alloc in H. cbn in H. inversion H; subst. cbn [oused t_used].
+    apply (steps_one L [] (BDesc ext)).
+  - unfold l_alloc in H. cbn in H. inversion H; subst. cbn [oused t_used].
+    apply (steps_one L [] BMalloc).
+Qed.
+
+Lemma ktable_set_steps cfg gsize ot k v ext fc fe L L' ot' rc :
+  ktable_set cfg gsize ot k v ext fc fe L = (L', ot', rc) -> Steps L (oused ot) L' (oused ot').
+Proof.
+  unfold ktable_set. intros H. destruct ot as [t|].
+  - destruct (ktable_set_impl cfg t k v ext fe L) as [[L1 t1] rc1] eqn:E. inversion H; subst.
+    cbn [oused]. eapply set_impl_steps; eauto.
+  - destruct (ktable_create cfg gsize ext fc L) as [L1 [t|]] eqn:EC.
+    + destruct (ktable_set_impl cfg t k v ext fe L1) as [[L2 t2] rc2] eqn:E. inversion H; subst.
+      eapply steps_trans; [eapply create_steps; eauto|]. cbn [oused]. eapply set_impl_steps; eauto.
+    + inversion H; subst. apply (create_steps _ _ _ _ _ _ _ EC).
+Qed.
+
+Definition dummy_tab (used : list (Z * bool)) : option ktable := Some (mkT 0 [] used NULLLOC 0).
+
+Lemma set_set us u a b : set_unit (set_unit us u a) u b = set_unit us u b.
+Proof.
+  induction us as [|[c x] us IH]; cbn; auto. destruct (c =? u) eqn:Ec; cbn; rewrite Ec; congruence.
+Qed.
+
+Lemma link_steps L used L' used' : Steps L used L' used' ->
+  forall us u ot ot', LedInv L -> Link us L -> find_unit us u = Some ot ->
+  oused ot = used -> oused ot' = used' ->
+  LedInv L' /\ Link (set_unit us u ot') L'.
+Proof.
+  induction 1 as [L used|L used k L' used' HS IH]; intros us u ot ot' LI LK Hf E E'.
+  - split; auto. eapply link_same; eauto. congruence.
+  - pose proof (link_push us L u ot (dummy_tab ((l_next L, is_desc k) :: used)) k LI LK Hf) as LK1.
+    cbn [oused dummy_tab t_used] in LK1. rewrite E in LK1. specialize (LK1 eq_refl).
+    pose proof (ledinv_alloc L k LI) as LI1.
+    destruct (IH (set_unit us u (dummy_tab ((l_next L, is_desc k) :: used))) u
+                 (dummy_tab ((l_next L, is_desc k) :: used)) ot' LI1 LK1) as [LI' LK']; auto.
+    { rewrite find_set, Hf, Z.eqb_refl. reflexivity. }
+    rewrite set_set in LK'. auto.
+Qed.
+
+(* the release walk of ABTI_ktable_free *)
+Lemma release_chain_spec used : forall L,
+  LedInv L -> NoDup (map fst used) ->
+  (forall b mp, In (b, mp) used -> exists k, In (b, k) (l_live L) /\ is_desc k = mp) ->
+  let L' := release_chain used L in
+  LedInv L' /\
+  (forall x, In x (l_live L') <-> In x (l_live L) /\ ~ In (fst x) (map fst used)) /\
+  (forall b, In b (map fst used) -> In b (map fst (l_rel L'))) /\
+  (forall x, In x (l_rel L) -> In x (l_rel L')).
+Proof.
+  unfold release_chain. induction used as [|[b mp] used IH]; intros L LI N OW; cbn [fold_left].
+  - split; auto. split; [intros x; cbn; tauto|]. split; [intros b []|auto].
+  - inversion N; subst. destruct (OW b mp (or_introl eq_refl)) as (k & Hk & Hd).
+    cbn [fst snd]. fold (relr_of mp).
+    destruct (ledinv_release L b k (relr_of mp) LI Hk (proj2 (kind_ok_iff k mp) Hd))
+      as (LI1 & Hl & Ha & Hn & Hr).
+    destruct (IH (l_release L b (relr_of mp)) LI1 H2) as (LI2 & Hl2 & Hr2 & Hr3).
+    { intros b' mp' H'. destruct (OW b' mp' (or_intror H')) as (k' & Hk' & Hd').
+      exists k'. split; auto. rewrite Hl. apply (live_remove_in _ b _ (ld_livend _ LI)). split; auto.
+      cbn. intros ->. apply H1. eapply in_fst; eauto. }
+    split; auto. split; [|split].
+    + intros x. rewrite Hl2, Hl, (live_remove_in _ b x (ld_livend _ LI)). cbn. intuition congruence.
+    + intros b' [<-|H']; auto. apply in_map_iff. exists (b, relr_of mp). split; auto.
+      apply Hr3. rewrite Hr. apply in_or_app; right; left; auto.
+    + intros x H. apply Hr3. rewrite Hr. apply in_or_app; auto.
+Qed.
+
+Lemma link_del us L u ot L' :
+  NoDup (map fst us) -> Link us L -> find_unit us u = Some ot ->
+  (forall x, In x (l_live L') <-> In x (l_live L) /\ ~ In (fst x) (map fst (oused ot))) ->
+  Link (del_unit us u) L'.
+Proof.
+  intros N [ND OW UQ LV] Hf HL.
+  assert (F : forall u' x, find_unit (del_unit us u) u' = Some x -> find_unit us u' = Some x /\ u' <> u).
+  { intros u' x. rewrite find_del by auto. destruct (Z.eqb_spec u' u); [discriminate|auto]. }
+  split.
+  - intros u' x H. destruct (F _ _ H). eauto.
+  - intros u' x b mp H Hb. destruct (F _ _ H) as [H0 Hne].
+    destruct (OW _ _ _ _ H0 Hb) as (k & Hk & Hd). exists k. split; auto. apply HL. split; auto.
+    cbn. intros Hin. apply Hne. eapply (UQ u' u x ot b); eauto. eapply in_fst; eauto.
+  - intros u1 u2 x1 x2 b H1 H2. destruct (F _ _ H1), (F _ _ H2). eauto.
+  - intros b H. apply in_map_iff in H. destruct H as (x & <- & Hx). apply HL in Hx. destruct Hx as [Hx Hn].
+    destruct (LV (fst x) (in_map fst _ _ Hx)) as (u' & y & Hy & Hb).
+    exists u', y. split; auto. rewrite find_del by auto.
+    destruct (Z.eqb_spec u' u) as [->|]; auto. exfalso. apply Hn. congruence.
+Qed.
+
+(* ------------------------------------------------------------------ the ledger invariant along every run *)
+Record BInv (w : world) : Prop := {
+  bi_led  : LedInv (w_led w);
+  bi_link : Link (w_units w) (w_led w)
+}.
+
+Lemma binv0 env : BInv (world0 env).
+Proof. split; cbn; [apply ledinv0|apply link0]. Qed.
+
+Lemma wstep_binv cfg w o : WInv w -> BInv w -> BInv (fst (wstep cfg w o)).
+Proof.
+  intros I [LI LK].
+  destruct o as [d|h|n|u ext mig|ext u h v fc fe|u h|h|ext u|u|u]; cbn [wstep].
+  - cbn [fst]. split; auto.
+  - destruct (nth_error (w_keys w) h) as [[k [|]]|]; cbn [fst]; split; auto.
+  - cbn [fst]. split; auto.
+  - destruct (find_unit (w_units w) u) eqn:E; cbn [fst]; [split; auto|].
+    destruct mig.
+    + rewrite ktable_set_unsafe_eq.
+      destruct (ktable_set cfg (w_gsize w) None mig_key MIGVAL ext false false (w_led w)) as [[L' ot'] rc] eqn:ES.
+      cbn [fst]. pose proof (ktable_set_steps _ _ _ _ _ _ _ _ _ _ _ _ ES) as ST.
+      pose proof (link_add (w_units w) (w_led w) u None LK E eq_refl) as LK1.
+      destruct (link_steps _ _ _ _ ST (w_units w ++ [(u, None)]) u None ot' LI LK1) as [LI' LK']; auto.
+      { rewrite find_app, E, Z.eqb_refl. reflexivity. }
+      split; cbn [w_led w_units]; auto.
+      replace (w_units w ++ [(u, ot')]) with (set_unit (w_units w ++ [(u, None)]) u ot'); auto.
+      clear - E. induction (w_units w) as [|[a x] l IH]; cbn in *.
+      * rewrite Z.eqb_refl. reflexivity.
+      * destruct (Z.eqb_spec a u); [discriminate|]. rewrite IH; auto.
+    + cbn [fst]. split; cbn [w_led w_units]; auto. apply link_add; auto.
+  - destruct (nth_error (w_keys w) h) as [[k [|]]|]; destruct (find_unit (w_units w) u) as [ot|] eqn:E;
+      cbn [fst]; try (split; auto; fail).
+    destruct (ktable_set cfg (w_gsize w) ot k v ext fc fe (w_led w)) as [[L' ot'] rc] eqn:ES. cbn [fst].
+    pose proof (ktable_set_steps _ _ _ _ _ _ _ _ _ _ _ _ ES) as ST.
+    destruct (link_steps _ _ _ _ ST (w_units w) u ot ot' LI LK E eq_refl eq_refl) as [LI' LK'].
+    split; auto.
+  - destruct (nth_error (w_keys w) h) as [[k [|]]|]; destruct (find_unit (w_units w) u); cbn [fst]; split; auto.
+  - destruct (nth_error (w_keys w) h) as [[k [|]]|]; cbn [fst]; split; auto.
+  - destruct (find_unit (w_units w) u) as [ot|] eqn:E; cbn [fst]; [|split; auto].
+    destruct (ktable_get ot mig_key =? 0); cbn [fst]; [|split; auto].
+    destruct (ktable_set cfg (w_gsize w) ot mig_key MIGVAL ext false false (w_led w)) as [[L' ot'] rc] eqn:ES. cbn [fst].
+    pose proof (ktable_set_steps _ _ _ _ _ _ _ _ _ _ _ _ ES) as ST.
+    destruct (link_steps _ _ _ _ ST (w_units w) u ot ot' LI LK E eq_refl eq_refl) as [LI' LK'].
+    split; auto.
+  - destruct (find_unit (w_units w) u); cbn [fst]; split; auto.
+  - destruct (find_unit (w_units w) u) as [[t|]|] eqn:E; cbn [fst]; [| |split; auto].
+    + unfold ktable_free. cbn [fst].
+      destruct (release_chain_spec (t_used t) (w_led w) LI (lk_nd _ _ LK _ _ E))
+        as (LI' & HL & _ & _).
+      { intros b mp Hb. apply (lk_own _ _ LK _ _ _ _ E Hb). }
+      split; cbn [w_led w_units]; auto.
+      eapply link_del; eauto. apply (wi_nodup _ I).
+    + split; cbn [w_led w_units]; auto.
+      eapply link_del; eauto; [apply (wi_nodup _ I)|]. cbn. intros x. tauto.
+Qed.
+
+Lemma wrun_binv cfg ops : forall w, WInv w -> BInv w -> BInv (fst (wrun cfg w ops)).
+Proof.
+  induction ops as [|o ops IH]; intros w I B; cbn; auto.
+  pose proof (wstep_inv cfg w o I) as I'. pose proof (wstep_binv cfg w o I B) as B'.
+  destruct (wstep cfg w o) as [w' r]. cbn in *.
+  specialize (IH w' I' B'). destruct (wrun cfg w' ops). cbn in *. auto.
+Qed.
+
+(* what the invariant says about any reachable ledger *)
+Lemma binv_blocks w : BInv w ->
+  let L := w_led w in
+  l_bad L = [] /\ NoDup (map fst (l_rel L)) /\
+  (forall b r, In (b, r) (l_rel L) -> exists k, In (b, k) (l_all L) /\ kind_ok k r = true) /\
+  (forall b, In b (map fst (l_all L)) ->
+     (In b (map fst (l_rel L)) /\ ~ In b (map fst (l_live L))) \/
+     (~ In b (map fst (l_rel L)) /\
+      exists u ot, find_unit (w_units w) u = Some ot /\ In b (map fst (oused ot)) /\
+        forall u' ot', find_unit (w_units w) u' = Some ot' -> In b (map fst (oused ot')) -> u' = u)) /\
+  (w_units w = [] -> l_live L = []).
+Proof.
+  intros [LI LK] L. split; [apply (ld_bad _ LI)|]. split; [apply (ld_relnd _ LI)|]. split; [|split].
+  - intros b r H. apply (ld_rel _ LI b r H).
+  - intros b H. destruct (ld_part _ LI b H) as [Hl|Hr].
+    + right. split.
+      * intros Hr. apply in_map_iff in Hr. destruct Hr as ([b' r] & E & Hr). cbn in E; subst b'.
+        destruct (ld_rel _ LI b r Hr) as [Hn _]. auto.
+      * destruct (lk_live _ _ LK b Hl) as (u & ot & Hu & Hb). exists u, ot. repeat split; auto.
+        intros u' ot' Hu' Hb'. eapply (lk_uniq _ _ LK); eauto.
+    + left. split; auto. apply in_map_iff in Hr. destruct Hr as ([b' r] & E & Hr). cbn in E; subst b'.
+      apply (ld_rel _ LI b r Hr).
+  - intros E. destruct (l_live L) as [|[b k] l] eqn:El; auto. exfalso.
+    destruct (lk_live _ _ LK b) as (u & ot & Hu & _).
+    { fold L. rewrite El. cbn. auto. }
+    rewrite E in Hu. discriminate.
+Qed.
+
+(* after thread_free of a unit all of its blocks are in the release log *)
+Lemma wfree_blocks cfg w u t w' calls :
+  WInv w -> BInv w -> find_unit (w_units w) u = Some (Some t) ->
+  wstep cfg w (OFree u) = (w', RFreed calls) ->
+  forall b, In b (map fst (t_used t)) ->
+    In b (map fst (l_rel (w_led w'))) /\ ~ In b (map fst (l_live (w_led w'))).
+Proof.
+  intros I [LI LK] E H b Hb. cbn [wstep] in H. rewrite E in H. unfold ktable_free in H.
+  inversion H; subst; clear H. cbn [w_led].
+  destruct (release_chain_spec (t_used t) (w_led w) LI (lk_nd _ _ LK _ _ E)) as (LI' & HL & HR & _).
+  { intros b' mp Hb'. apply (lk_own _ _ LK _ _ _ _ E Hb'). }
+  split; [apply HR; auto|]. intros Hl. apply in_map_iff in Hl. destruct Hl as (x & <- & Hx).
+  apply HL in Hx. tauto.
+Qed.
